@@ -6,7 +6,7 @@ export GOFLAGS=-mod=mod GOPROXY=off
 unset GOTOOLCHAIN GOSUMDB || true
 mkdir -p .work/bin evidence replays
 sort -u /repo/go.sum $( [ -f /repo/test/go.sum ] && echo /repo/test/go.sum ) > go/go.sum
-(cd go && for t in go2lean rulefacts mwfacts harness; do go build -tags verif -o ../.work/bin/$t ./cmd/$t; done)
+(cd go && for t in go2lean rulefacts mwfacts isofacts harness; do go build -tags verif -o ../.work/bin/$t ./cmd/$t; done)
 (cd /repo && go build -tags verif -o /verif/.work/bin/govalid ./cmd/govalid)
 .work/bin/go2lean /repo/validation/validationhelper lean/Gvlean/Generated/Helpers.lean.tmp && \
   { cmp -s lean/Gvlean/Generated/Helpers.lean.tmp lean/Gvlean/Generated/Helpers.lean && rm lean/Gvlean/Generated/Helpers.lean.tmp || mv lean/Gvlean/Generated/Helpers.lean.tmp lean/Gvlean/Generated/Helpers.lean; }
@@ -15,6 +15,9 @@ if .work/bin/rulefacts /repo lean/Gvlean/Generated/RuleFacts.lean.tmp; then
 fi
 if .work/bin/mwfacts /repo lean/Gvlean/Generated/MwFacts.lean.tmp; then
   cmp -s lean/Gvlean/Generated/MwFacts.lean.tmp lean/Gvlean/Generated/MwFacts.lean && rm lean/Gvlean/Generated/MwFacts.lean.tmp || mv lean/Gvlean/Generated/MwFacts.lean.tmp lean/Gvlean/Generated/MwFacts.lean
+fi
+if .work/bin/isofacts /repo lean/Gvlean/Generated/IsoFacts.lean.tmp; then
+  cmp -s lean/Gvlean/Generated/IsoFacts.lean.tmp lean/Gvlean/Generated/IsoFacts.lean && rm lean/Gvlean/Generated/IsoFacts.lean.tmp || mv lean/Gvlean/Generated/IsoFacts.lean.tmp lean/Gvlean/Generated/IsoFacts.lean
 fi
 (cd lean && lake build)
 echo setup-ok
